@@ -274,6 +274,7 @@ impl<'tcx> Interp<'tcx> {
                 }
                 TerminatorKind::Call { func, args, destination, target, .. } => {
                     self.cur_call_bb = bb;
+                    let track_key: Option<Rc<str>> = if self.track_ret.is_empty() { None } else { self.track_key(&st, func, args) };
                     let parts = self.do_call(st, bb, func, args, destination);
                     self.cur_call_bb = bb;
                     let Some(target) = target else { return acc };
@@ -284,11 +285,13 @@ impl<'tcx> Interp<'tcx> {
                     while parts.len() > 1 {
                         let (mut s, v) = parts.pop().unwrap();
                         self.assign_call_result(&mut s, destination, v);
+                        self.note_call_result(&mut s, destination, &track_key);
                         let o = self.exec_from(target.as_usize(), 0, stop, s, false);
                         acc.merge(o);
                     }
                     let (mut s, v) = parts.pop().unwrap();
                     self.assign_call_result(&mut s, destination, v);
+                    self.note_call_result(&mut s, destination, &track_key);
                     st = s;
                     bb = target.as_usize();
                 }
@@ -297,6 +300,47 @@ impl<'tcx> Interp<'tcx> {
                     return acc;
                 }
             }
+        }
+    }
+
+    /// fact key of a tracked call: `<caller>: <callee>(<argument places>)`
+    fn track_key(&mut self, st: &State, func: &Operand<'tcx>, args: &[rustc_span::Spanned<Operand<'tcx>>]) -> Option<Rc<str>> {
+        let bi = self.stack.last().unwrap().clone();
+        let fty = func.ty(&bi.body, self.tcx);
+        let ty::FnDef(def, _) = fty.kind() else { return None };
+        let name = crate::facts::def_name(self.tcx, *def);
+        if !self.track_ret.iter().any(|p| name.contains(p.as_str())) {
+            return None;
+        }
+        let mut ds = Vec::new();
+        for a in args {
+            let v = self.eval_operand(st, &a.node);
+            ds.push(match &v {
+                Val::Ref(p) => match st.read(p) {
+                    Val::Arr(a) => format!("{}#{}", self.describe_ptr(p), a.len),
+                    _ => self.describe_ptr(p),
+                },
+                Val::Int(_) => "int".to_string(),
+                Val::Opq(_) => "opaque".to_string(),
+                _ => "value".to_string(),
+            });
+        }
+        Some(Rc::from(format!("{}: {}({})", bi.short, name, ds.join(", ")).as_str()))
+    }
+
+    fn note_call_result(&mut self, st: &mut State, dest: &mir::Place<'tcx>, key: &Option<Rc<str>>) {
+        let Some(key) = key else { return };
+        if !dest.projection.is_empty() {
+            return;
+        }
+        let fi = self.fi() as usize;
+        let l = dest.local.as_u32();
+        if let Val::Int(i) = &st.frames[fi].locals[l as usize] {
+            let (lo, hi) = (i.lo, i.hi);
+            let ver = st.frames[fi].vers[l as usize];
+            st.frames[fi].callres.retain(|e| e.0 != l);
+            st.frames[fi].callres.push((l, ver, key.clone()));
+            Rc::make_mut(&mut st.facts).insert(key.clone(), (lo, hi));
         }
     }
 
@@ -356,6 +400,8 @@ impl<'tcx> Interp<'tcx> {
         let mut abstract_rounds = 0u32;
         let mut abstract_mode = bi.cfg.primary_exit[h].is_none();
         let mut iters = 0u64;
+        // peeled iterations are analysed one after the other (back-edge states joined with each other only)
+        let mut peel_left = self.peel.iter().find(|(f, _)| bi.name.contains(f.as_str())).map(|x| x.1).unwrap_or(0);
         loop {
             iters += 1;
             if iters > 200_000 || self.over_budget {
@@ -383,6 +429,11 @@ impl<'tcx> Interp<'tcx> {
                 Some(prev) => {
                     if back.leq(&prev) {
                         break;
+                    }
+                    if peel_left > 0 {
+                        peel_left -= 1;
+                        cur = back;
+                        continue;
                     }
                     if !took_primary && bi.cfg.primary_exit[h].is_some() && self.concrete_progress(&prev, &back) {
                         cur = back;
@@ -583,6 +634,7 @@ impl<'tcx> Interp<'tcx> {
         st.frames.push(fr);
         self.stack.push(bi.clone());
         let probe_this = !self.probe_pats.is_empty() && self.probe_pats.iter().any(|p| bi.name.contains(p.as_str()));
+        let probe_facts: String = if probe_this { st.facts.iter().map(|(k, v)| format!("{} => [{},{}]", k, v.0, v.1)).collect::<Vec<_>>().join(" ;; ") } else { String::new() };
         let rw_before = self.reject_witness.len();
         let saved_bb = (self.cur_bb, self.cur_call_bb);
         let t0 = std::time::Instant::now();
@@ -651,6 +703,7 @@ impl<'tcx> Interp<'tcx> {
         if probe_this {
             let mut d = std::collections::BTreeMap::new();
             d.insert("args".to_string(), probe_args.join(" ; "));
+            d.insert("facts".to_string(), probe_facts.clone());
             let mut j: Option<Val> = None;
             for (_, v) in out.iter() {
                 j = Some(match j {
@@ -677,7 +730,7 @@ impl<'tcx> Interp<'tcx> {
                 let viol = self.violations_since(&pviol_before, &bi.short);
                 let e = self.pmemo.entry(inst).or_default();
                 if e.len() < 64 {
-                    let prb: Vec<Probe> = self.probes[probes_before.min(self.probes.len())..].iter().take(96).cloned().collect();
+                    let prb: Vec<Probe> = self.probes[probes_before.min(self.probes.len())..].iter().take(4096).cloned().collect();
                     let rw: Vec<Val> = self.reject_witness[rw_before_memo.min(self.reject_witness.len())..].to_vec();
                     e.push((k, out.iter().map(|o| o.1.clone()).collect(), viol, prb, rw));
                 }
